@@ -135,6 +135,27 @@ func c11Shapes(thorough bool) map[string][]sstEntry {
 		lk = append(lk, sstEntry{Key: []byte(fmt.Sprintf("%s%02d", long, i)), Val: []byte{byte(i)}, Seq: uint64(i)})
 	}
 	shapes["long-shared-prefix"] = lk
+	// position of the first difference between neighbouring keys: every position p of keys of length L (around
+	// the 8-byte word sizes a prefix computation may work in), with an equal tail behind the differing byte
+	// ("001/profile", "002/profile") and with a differing tail
+	for _, L := range []int{8, 9, 12, 16, 17, 24, 31} {
+		for p := 0; p < L; p++ {
+			for _, tail := range []string{"eq", "ne"} {
+				var dk []sstEntry
+				for j := 0; j < 20; j++ {
+					k := bytes.Repeat([]byte("P"), p)
+					k = append(k, byte('a'+j))
+					t := byte('S')
+					if tail == "ne" && j%2 == 1 {
+						t = 'T'
+					}
+					k = append(k, bytes.Repeat([]byte{t}, L-p-1)...)
+					dk = append(dk, sstEntry{Key: k, Val: []byte(fmt.Sprintf("d%d", j)), Seq: uint64(j + 1)})
+				}
+				shapes[fmt.Sprintf("diffpos-L%d-p%d-%s", L, p, tail)] = dk
+			}
+		}
+	}
 	// keys at the format limit (the key length is a 16-bit field): 65535 and 65534 bytes, stored prefix-compressed
 	// behind a short key and behind a key sharing most of their bytes
 	for _, n := range []int{65535, 65534} {
